@@ -1,5 +1,6 @@
 import HC.Pure.Config
 import HC.Extracted.ConfigState
+import HC.Extracted.Guards
 /-!
 # Several `Config` objects, histories of operations (C19)
 
@@ -77,7 +78,11 @@ def stepWith (reset : Bool) (w : World) : Op → World
   | .setSsl i b => match w.objs[i]? with
     | some o => { w with objs := w.objs.set i { o with ssl := b } } | none => w
   | .createSockets i quic => match w.objs[i]? with
-    | some o => setQuic reset w i o (if o.ssl then quic else [])   -- without TLS no QUIC socket is made: none is recorded (and none stays)
+    | some o =>
+      -- without TLS no QUIC socket is made: none is recorded, and none of an earlier call stays - when the call of
+      -- `_set_quic_addresses` is made in both cases (extracted; before /repo c5ea7af nothing was recorded without TLS)
+      if o.ssl then setQuic reset w i o quic
+      else if HC.Extracted.Guards.configQuicSetAlways then setQuic reset w i o [] else w
     | none => w
 
 def runWith (reset : Bool) (w : World) (ops : List Op) : World := ops.foldl (stepWith reset) w
